@@ -29,7 +29,10 @@ ASSUMPTIONS = [
     "whose end instant is >= B and not before",
     "the time of the first call of a loop started with now=False is not constrained (the statement speaks of calls after the first)",
     "reset() with a pending call moves the boundary origin to the reset instant; reset() while the function's Deferred is "
-    "unfired may or may not move it (both accepted); the withCount sum clause is not evaluated once reset() was used",
+    "unfired may or may not move it (both accepted); once reset() was used the withCount sum over the whole run is not "
+    "evaluated (the statement does not say how boundaries of the old phase count); evaluated instead: if no boundary of the "
+    "old phase elapsed between the previous call (or the start) and a reset() with a pending call, the counts after that "
+    "reset sum to the boundaries of the new phase elapsed (all readings of the statement agree there)",
     "when the start() Deferred fires is not constrained, only that it has fired exactly once when the loop has ended "
     "(stop()/failure happened and no function Deferred is outstanding)",
 ]
@@ -100,6 +103,7 @@ class H:
         self.adv_prev = None    # clock instant before the advance in progress (None = not advancing)
         self.reset_used = False
         self.count_sum = 0
+        self.phase = None       # [origin, counts since] after a reset() at which no boundary of the old phase was outstanding
         self.flags = set()
         self.lc = None
         self.clock = None
@@ -199,6 +203,13 @@ class H:
                         self.flag("LoopingCall.withCount:count-sum-differs-from-boundaries-elapsed",
                                   "at %r counts so far %r sum to %d, boundaries elapsed %d (start %r interval %r now=%r)" % (
                                       t, [c for _, c in self.calls], self.count_sum, elapsed, self.start0, self.interval, self.now))
+                elif self.phase is not None:
+                    self.phase[1] += count
+                    elapsed = nints(t - self.phase[0], self.interval)
+                    if self.phase[1] != elapsed:
+                        self.flag("LoopingCall.withCount:count-after-reset-differs-from-boundaries-of-new-phase",
+                                  "reset at %r; at %r counts since the reset sum to %d, boundaries of the new phase elapsed %d "
+                                  "(interval %r, calls %r)" % (self.phase[0], t, self.phase[1], elapsed, self.interval, self.calls))
         b = self.ch.pick(self.behs, "behaviour", free=True)
         self.lastbeh = b
         sl = self.ch.choose(1 + len(self.slow), "slow-call") if b == "ret" and self.slow and self.budget > 0 else 0
@@ -233,6 +244,7 @@ class H:
         if b == "resetself":
             # no call is pending while the function runs: must not schedule anything; whether the origin moves is not constrained
             self.reset_used = True
+            self.phase = None
             self.starts = self.starts | {t}
             self.lc.reset()
             if list(self.clock.getDelayedCalls()):
@@ -312,11 +324,22 @@ class H:
             self.reset_used = True
             self.flags.add("reset")
             if self.outstanding is None:
+                # count clause across a reset: only when every reading agrees, i.e. no boundary of the old phase elapsed
+                # between the previous call (or the start) and the reset -- then the counts after the reset must sum to
+                # the boundaries of the new phase elapsed
+                self.phase = None
+                if len(self.starts) == 1:
+                    s0 = next(iter(self.starts))
+                    ref = self.calls[-1][0] if self.calls else s0
+                    if ref >= s0 and nints(r - s0, self.interval) == nints(ref - s0, self.interval):
+                        self.phase = [r, 0]
+                        self.flags.add("count-checked-across-reset")
                 self.starts = {r}
                 self.expectB = {r + self.interval}
                 self.lc.reset()
                 self.check_timer("after-reset")
             else:
+                self.phase = None
                 self.starts = self.starts | {r}
                 self.lc.reset()
                 if list(clock.getDelayedCalls()):
